@@ -8,6 +8,12 @@
   hoistret    every `return <call or arithmetic>` becomes `_ret = ...; return _ret`
   renpriv     every private module-level function `_f` is renamed `_f_p`, with all its references in the package
   renparam    every parameter `p` of a private module-level function becomes `p_q` (in its body and in keyword arguments of its call sites)
+  annotate    every parameter and return gets a (string) type annotation; simple assignments in undecorated functions become annotated assignments
+  logdbg      every undecorated function starts with a `logging` debug call (module-level logger added)
+  docstr      every function and class gets a new docstring (existing ones are replaced)
+  fstr        every `"..{}..".format(..)` with plain fields becomes an f-string
+  npfull      `import numpy as np` becomes `import numpy`, every `np.` becomes `numpy.`
+  ternary     every `x = a if c else b` becomes a two-armed if statement
 """
 import ast, os, shutil, subprocess, sys, tempfile, builtins
 HERE = os.path.dirname(os.path.abspath(__file__))
@@ -96,6 +102,142 @@ class HoistReturn(ast.NodeTransformer):
 PRIVATE = set()
 
 
+def _decorated(node):
+    return bool(getattr(node, "decorator_list", None))
+
+
+class Annotate(ast.NodeTransformer):
+    def __init__(self):
+        self.in_decorated = 0
+
+    def visit_FunctionDef(self, node):
+        dec = _decorated(node)
+        self.in_decorated += dec
+        self.generic_visit(node)
+        self.in_decorated -= dec
+        for a in node.args.posonlyargs + node.args.args + node.args.kwonlyargs:
+            if a.arg not in ("self", "cls") and a.annotation is None:
+                a.annotation = ast.Constant("Any")
+        if node.returns is None and node.name != "__init__":
+            node.returns = ast.Constant("Any")
+        return node
+
+    def visit_Assign(self, node):
+        if not self.in_decorated and self.depth_ok and len(node.targets) == 1 and isinstance(node.targets[0], ast.Name):
+            return ast.AnnAssign(target=node.targets[0], annotation=ast.Constant("Any"), value=node.value, simple=1)
+        return node
+
+    depth_ok = True
+
+    def visit_ClassDef(self, node):
+        old = self.depth_ok
+        self.depth_ok = False           # class attributes keep their plain form
+        for i, b in enumerate(node.body):
+            if isinstance(b, ast.FunctionDef):
+                self.depth_ok = True
+                node.body[i] = self.visit(b)
+                self.depth_ok = False
+        self.depth_ok = old
+        return node
+
+
+class LogDebug(ast.NodeTransformer):
+    def __init__(self):
+        self.in_decorated = 0
+
+    def visit_FunctionDef(self, node):
+        dec = _decorated(node)
+        self.in_decorated += dec
+        self.generic_visit(node)
+        self.in_decorated -= dec
+        if not dec and not self.in_decorated:
+            call = ast.Expr(ast.Call(ast.Attribute(ast.Name("_sigpy_log", ast.Load()), "debug", ast.Load()), [ast.Constant("enter %s"), ast.Constant(node.name)], []))
+            k = 1 if (node.body and isinstance(node.body[0], ast.Expr) and isinstance(node.body[0].value, ast.Constant) and isinstance(node.body[0].value.value, str)) else 0
+            node.body.insert(k, call)
+        return node
+
+    def visit_Module(self, node):
+        self.generic_visit(node)
+        k = 0
+        while k < len(node.body) and ((isinstance(node.body[k], ast.Expr) and isinstance(node.body[k].value, ast.Constant)) or
+                                      (isinstance(node.body[k], ast.ImportFrom) and node.body[k].module == "__future__")):
+            k += 1
+        node.body[k:k] = ast.parse("import logging as _logging_mod\n_sigpy_log = _logging_mod.getLogger(__name__)\n").body
+        return node
+
+
+class DocStr(ast.NodeTransformer):
+    def _doc(self, node):
+        self.generic_visit(node)
+        d = ast.Expr(ast.Constant("Rewritten documentation of %s.\n\n    Args: see the user guide.\n    " % node.name))
+        if node.body and isinstance(node.body[0], ast.Expr) and isinstance(node.body[0].value, ast.Constant) and isinstance(node.body[0].value.value, str):
+            node.body[0] = d
+        else:
+            node.body.insert(0, d)
+        return node
+    visit_FunctionDef = _doc
+    visit_ClassDef = _doc
+
+
+class FString(ast.NodeTransformer):
+    def visit_Call(self, node):
+        self.generic_visit(node)
+        f = node.func
+        if isinstance(f, ast.Attribute) and f.attr == "format" and isinstance(f.value, ast.Constant) and isinstance(f.value.value, str) \
+                and not any(isinstance(a, ast.Starred) for a in node.args) and not any(k.arg is None for k in node.keywords):
+            import string
+            try:
+                fields = list(string.Formatter().parse(f.value.value))
+            except ValueError:
+                return node
+            kw = {k.arg: k.value for k in node.keywords}
+            parts, auto = [], 0
+            for lit, name, spec, conv in fields:
+                if lit:
+                    parts.append(ast.Constant(lit))
+                if name is None:
+                    continue
+                if spec or conv:
+                    return node
+                if name == "":
+                    if auto >= len(node.args):
+                        return node
+                    val = node.args[auto]; auto += 1
+                elif name.isdigit():
+                    if int(name) >= len(node.args):
+                        return node
+                    val = node.args[int(name)]
+                elif name in kw:
+                    val = kw[name]
+                else:
+                    return node
+                parts.append(ast.FormattedValue(value=val, conversion=-1, format_spec=None))
+            return ast.JoinedStr(parts)
+        return node
+
+
+class NpFull(ast.NodeTransformer):
+    def visit_Import(self, node):
+        for a in node.names:
+            if a.name == "numpy" and a.asname == "np":
+                a.asname = None
+        return node
+
+    def visit_Name(self, node):
+        if node.id == "np":
+            node.id = "numpy"
+        return node
+
+
+class Ternary(ast.NodeTransformer):
+    def visit_Assign(self, node):
+        if len(node.targets) == 1 and isinstance(node.targets[0], ast.Name) and isinstance(node.value, ast.IfExp):
+            t = node.targets[0]
+            return ast.If(test=node.value.test, body=[ast.Assign([ast.Name(t.id, ast.Store())], node.value.body, lineno=node.lineno)],
+                          orelse=[ast.Assign([ast.Name(t.id, ast.Store())], node.value.orelse, lineno=node.lineno)])
+        return node
+
+
 def collect_private(root):
     """names of private (single leading underscore) functions defined at module level anywhere in the package"""
     for r, _, files in os.walk(root):
@@ -159,6 +301,9 @@ class RenameKeywords(ast.NodeTransformer):
 PARAMS_OF = {}
 
 
+NEW_KINDS = {"annotate": Annotate, "logdbg": LogDebug, "docstr": DocStr, "fstr": FString, "npfull": NpFull, "ternary": Ternary}
+
+
 def transform(kind, src):
     tree = ast.parse(src)
     if kind == "renparam":
@@ -173,12 +318,14 @@ def transform(kind, src):
         tree = FlipCompare().visit(tree)
     elif kind == "hoistret":
         tree = HoistReturn().visit(tree)
+    elif kind in NEW_KINDS:
+        tree = NEW_KINDS[kind]().visit(tree)
     ast.fix_missing_locations(tree)
     return ast.unparse(tree) + "\n"
 
 
 def main():
-    kinds = [a for a in sys.argv[1:] if not a.startswith("--")] or ["unparse", "rename", "flipif", "flipcmp", "hoistret", "renpriv", "renparam"]
+    kinds = [a for a in sys.argv[1:] if not a.startswith("--")] or ["unparse", "rename", "flipif", "flipcmp", "hoistret", "renpriv", "renparam", "annotate", "logdbg", "docstr", "fstr", "npfull", "ternary"]
     collect_private("/repo/sigpy")
     bad = 0
     for kind in kinds:
